@@ -108,7 +108,7 @@ type env struct {
 	victimSig                         map[string]*lib.Signature // the one genuine signature of each victim (setup order)
 }
 
-func (e *env) next() uint64 { e.seq++; return e.seq }
+func (e *env) next() uint64   { e.seq++; return e.seq }
 func (e *env) height() uint64 { return e.n0.Height() }
 func (e *env) fee(name string) uint64 {
 	f, err := e.n0.C.FSM.GetFeeForMessageName(name)
@@ -583,7 +583,7 @@ type certOpts struct {
 	signer     *party   // who signs the transaction
 	lock       [][]byte // order ids to lock
 	close      [][]byte
-	partial    bool  // fewer than +2/3 sign the certificate
+	partial    bool   // fewer than +2/3 sign the certificate
 	swapAfter  *party // replace the proposer key after the committee signed
 	buyer      []byte
 	breakQCSig bool
@@ -1344,7 +1344,9 @@ func (e *env) setup(idx int) {
 		e.t.Fatalf("%s: chain: %v", e.name, err)
 	}
 	e.ch, e.n0 = ch, ch.Nodes[0]
-	ch.OnNode = func(n *node.Node) { n.C.Consensus.VerifSetProposalVoteDeadline(time.Now().Add(1000 * time.Hour).UnixMilli()) }
+	ch.OnNode = func(n *node.Node) {
+		n.C.Consensus.VerifSetProposalVoteDeadline(time.Now().Add(1000 * time.Hour).UnixMilli())
+	}
 	for _, n := range ch.Nodes {
 		ch.OnNode(n)
 	}
